@@ -312,6 +312,27 @@ def r16(src, counts):
     return src
 
 
+def r17(src, counts):
+    """`Cursor::new(<slice expression>)` (a std Cursor used as a READER over a byte slice) becomes the verified
+    stand-in `crate::adapt::SliceCursor::new(..)`; `Cursor::new([0; N])` (array + position container, never
+    read through) stays std's Cursor."""
+    m = mask(src)
+    out = []
+    i = 0
+    for mo in re.finditer(r'\b(?:std::io::|io::)?Cursor::new\(', m):
+        ob = mo.end() - 1
+        cb = match_close(m, ob, '(', ')')
+        arg = m[ob + 1:cb].strip()
+        if arg.startswith('['):
+            continue
+        out.append(src[i:mo.start()])
+        out.append('crate::adapt::SliceCursor::new(')
+        i = mo.end()
+        counts['R17.slice_cursor'] += 1
+    out.append(src[i:])
+    return ''.join(out)
+
+
 def r13(src, counts):
     """`impl<W> Write for Stream<W>` becomes an inherent impl (`pub fn write`, `pub fn flush`): the
     methods keep their bodies, only the trait-ness is dropped, so that their contracts can speak about
@@ -396,6 +417,6 @@ def extract_file(path, modpath):
     """Return (rewritten_source, counts)."""
     counts = Counter()
     src = open(path).read()
-    for rule in (r1, r2, r3, r4, r5, r6, r7, r8, r9, r10, r11, r12, r13, r16, r15):
+    for rule in (r1, r2, r3, r4, r5, r6, r7, r8, r9, r10, r11, r12, r13, r16, r17, r15):
         src = rule(src, counts)
     return src, counts
